@@ -49,7 +49,7 @@ class Arr(list):
 
 KINDS = ['assign', 'print', 'print2', 'expr', 'printexpr', 'none', 'multi', 'compound', 'def', 'semicolon', 'expr_wild', 'expr_arr', 'expr_words', 'printexpr_semi', 'none_semi']
 # the richer statement grammar of the C01 program generator (C01, C18, C19, C20)
-MORE_KINDS = ['await_expr', 'unawaited_coro', 'esc_literal', 'annotated_def', 'augassign', 'for', 'while', 'with', 'try', 'decodef', 'class', 'literal_comment', 'triple', 'triple_unprefixed', 'triple_blank', 'triple_unprefixed_blank', 'bracket_blank', 'triple_trailing_ws', 'triple_late_unprefixed', 'triple_dots_body',
+MORE_KINDS = ['await_expr', 'unawaited_coro', 'esc_literal', 'annotated_def', 'augassign', 'for', 'while', 'with', 'try', 'decodef', 'class', 'literal_comment', 'triple', 'triple_unprefixed', 'triple_blank', 'triple_unprefixed_blank', 'bracket_blank', 'triple_trailing_ws', 'triple_late_unprefixed', 'triple_dots_body', 'sep_literal',
               'import', 'comment', 'async_await', 'async_for', 'async_with']
 ALL_KINDS = KINDS + MORE_KINDS
 
@@ -163,6 +163,11 @@ class Stmt:
             self.unprefixed = [1]
             self.starts = [0, 3]
             self.out = '2\n'
+        elif kind == 'sep_literal':
+            # characters that str.splitlines() breaks at, inside string literals and a comment of one-line statements
+            self.lines = ["s%d = 'page1\x0cpage2\u2028x' if t(%d) else ''  # see \x85 note" % (k, k), "print(len(s%d), s%d.count(chr(12)), 'a\x1cb'.split(chr(28)))" % (k, k)]
+            self.starts = [0, 1]
+            self.out = "13 1 ['a', 'b']\n"
         elif kind == 'triple_dots_body':
             # unprompted lines of a multi-line string that LOOK like prompts: prose led by an ellipsis, a merge-conflict marker, a row of dots
             self.lines = ["s%d = t(%d) and '''first" % (k, k), '...and so on, and so forth', '>>>>>>> theirs', '........', "last %d'''" % k,
